@@ -172,6 +172,7 @@ func (r *specRes) ReadValue(iface distsys.ArchetypeInterface) (tla.Value, error)
 		return tla.Value{}, distsys.ErrArchetypeResourceMapReadWrite
 	}
 	v, err := r.macro.Read(&Access{res: r, iface: iface, path: r.path})
+	r.p.accessLog = append(r.p.accessLog, VarAccess{"r", r.varName, encIdx(r.path), err == nil})
 	if err != nil {
 		return tla.Value{}, err
 	}
@@ -198,5 +199,7 @@ func (r *specRes) WriteValue(iface distsys.ArchetypeInterface, value tla.Value) 
 		value = tla.FunctionSubstitution(cur, []tla.FunctionSubstitutionRecord{{
 			Keys: r.extra, Value: func(tla.Value) tla.Value { return nv }}})
 	}
-	return r.macro.Write(a, value)
+	err := r.macro.Write(a, value)
+	r.p.accessLog = append(r.p.accessLog, VarAccess{"w", r.varName, encIdx(r.path), err == nil})
+	return err
 }
